@@ -16,6 +16,9 @@ CLASSES = ["S@plain", "G@array", "S@struct", "E@cbuffer", "Eo@texture", "E@texar
 def nontrivial(req, obs):
     # at least two calls between generated functions and one function that receives an implicit parameter
     f = req.split("\t")
+    if f[0] == "C02.vfn":
+        # vector stream: the function was exported, is inside both evaluators and ran to completion on some vector
+        return obs.startswith("ast ") and " r=" in obs
     if f[0] == "C02.gen":
         # semantic stream: a supported function whose tree has a statement beyond a single return
         return obs.startswith("ast ") and obs.count("(") > 12
@@ -26,13 +29,19 @@ def nontrivial(req, obs):
 
 
 def finding_key(req, obs, detail):
-    if req.startswith("C02.gen\t") and not obs and not detail:
+    if req.startswith(("C02.gen\t", "C02.vfn\t")) and not obs and not detail:
         # probe of vlib.shrink: failures of the semantic stream are keyed by their input, so a smaller failing input is welcome
         return req
     d = (detail or "")[5:]
     d = re.sub(r":\d+:", ":", d)          # panic line numbers move with unrelated edits
     d = re.sub(r"panic \S*?((?:msl|ir|typer|parser|formatter|preprocess|text|ast|hlsl)/src/)", r"panic \1", d)
     first = d.split(" ## ")[0]
+    if req.startswith("C02.vfn\t") and first.startswith("panic "):
+        # a panic of the exporter is keyed by its site and message
+        return re.sub(r"\d+", "N", first)
+    if req.startswith("C02.vfn\t") and not first.startswith("class:"):
+        # the specific input: source text, function and argument vectors (the IR is derived from the source)
+        return "input " + "\t".join(req.split("\t")[1:4]) + " :: " + first[:160]
     if first.startswith("class:"):
         # semantic stream: a difference attributed to one of the described readings (see notes/C02.md) is keyed by its class
         return first
@@ -69,6 +78,11 @@ def _shrink_gen(req):
 
 
 def shrink(req):
+    if req.startswith("C02.vfn\t"):
+        # structure-aware shrinker of the vector stream (one argument vector, whole definitions, statement groups)
+        from checks.c01 import shrink_v
+        yield from shrink_v(req)
+        return
     if req.startswith("C02.gen\t"):
         yield from _shrink_gen(req)
         return
